@@ -46,7 +46,7 @@ pub fn meta(tier: Tier) -> CheckMeta {
             "C01-F1 is masked in the recovery queries by a user-level firewall repair (it is C01's finding)".into(),
             "RocksDB runs with the WAL disabled by design: a killed process may recover an empty store (counted)".into(),
         ],
-        parts: vec![PartSpec { name: "native", nshards: 16, budget_s: tier.pick(400, 3000), env: vec![], program: None }],
+        parts: vec![PartSpec { name: "native", nshards: 16, budget_s: tier.pick(400, 3000), env: vec![], program: None, prepare: None, sanitizer: None }],
         must_be_nonzero: vec![("prefixes_inside_log", "no crash prefix strictly inside a log"), ("recovered_sessions_distinct", "recovered session never varied")],
     }
 }
@@ -306,7 +306,7 @@ pub fn kill_child(args: &[String]) {
 pub fn worker(ctx: &WorkerCtx) -> Report {
     let mut rep = Report::default();
     let base = Rng::new(ctx.seed).derive(800 + ctx.shard as u64);
-    let n: u64 = if ctx.part == "miri" { 1 } else { ctx.tier.pick(3, 60) };
+    let n: u64 = if ctx.part == "miri" { 1 } else { ctx.pick(40, 600) };
     let mut seen = std::collections::HashSet::new();
     let mut recovered_kinds = std::collections::BTreeSet::new();
     let rt = tokio::runtime::Builder::new_current_thread().enable_all().build().unwrap();
@@ -374,7 +374,7 @@ pub fn worker(ctx: &WorkerCtx) -> Report {
     // ---- (B) kill -9 on real backends
     #[cfg(any(feature = "rocksdb", feature = "fjall"))]
     if ctx.part != "miri" {
-        let kills: u64 = ctx.tier.pick(1, 12);
+        let kills: u64 = ctx.pick(2, 20);
         let exe = std::env::current_exe().unwrap();
         let rt2 = tokio::runtime::Builder::new_multi_thread().worker_threads(2).enable_all().build().unwrap();
         for which in ["fjall", "rocksdb"] {
